@@ -498,7 +498,8 @@ double Dawson_Integral(double x)
 
 double Erfi(double x)
 {
-	return 2.0 / std::sqrt(M_PI) * std::exp(x * x) * Dawson_Integral(x);
+	// The factor exp(x^2) is split, because it overflows for |x| > 26.64 while Erfi(x) itself is finite up to |x| = 26.72.
+	return 2.0 / std::sqrt(M_PI) * (std::exp(0.5 * x * x) * Dawson_Integral(x)) * std::exp(0.5 * x * x);
 }
 
 double Inv_Erf(double p)
